@@ -381,3 +381,259 @@ Section Generic.
     intro E. destruct (plu_ok_final n A L U P E) as [s [H1 [H2 _]]]. exists s. split; assumption.
   Qed.
 End Generic.
+
+(* ======================================================================================== *)
+(* Part B — binary64: rounding of the chain                                                  *)
+Local Open Scope R_scope.
+Local Notation pfloat := PrimFloat.float.
+
+(* r_m + sum_{t<m} x_t y_t  equals  a  up to (1+eps)^m - 1 relative to |r_m| + sum |x_t y_t| *)
+Lemma chain_float_error (a : pfloat) (xs ys : nat -> pfloat) (m : nat) :
+  (forall t, (t < m)%nat -> okmul (xs t) (ys t)) ->
+  (forall t, (t <= m)%nat -> ffin (chain a xs ys t)) ->
+  Rabs (FR (chain a xs ys m) + RsumN (fun t => FR (xs t) * FR (ys t)) m - FR a) <=
+    ((1 + feps) ^ m - 1) * (Rabs (FR (chain a xs ys m)) + RsumN (fun t => Rabs (FR (xs t) * FR (ys t))) m).
+Proof.
+  induction m as [|m IH]; intros Hok Hf.
+  - cbn [chain pow]. rewrite !RsumN_0.
+    replace (FR a + 0 - FR a) with 0 by ring. rewrite Rabs_R0. lra.
+  - assert (IH' := IH (fun t Ht => Hok t (Nat.lt_lt_succ_r _ _ Ht)) (fun t Ht => Hf t (Nat.le_le_succ_r _ _ Ht))).
+    clear IH.
+    change (chain a xs ys (S m)) with (PrimFloat.sub (chain a xs ys m) (PrimFloat.mul (xs m) (ys m))).
+    pose proof (Hf (S m) (le_n _)) as F1.
+    change (chain a xs ys (S m)) with (PrimFloat.sub (chain a xs ys m) (PrimFloat.mul (xs m) (ys m))) in F1.
+    pose proof (Hf m (Nat.le_succ_diag_r m)) as F0.
+    destruct (okmul_rel _ _ (Hok m (Nat.lt_succ_diag_r m))) as [Fp [e [He Ep]]].
+    destruct (sub_finite_inv _ _ F0 Fp F1) as [d [Hd Ed]].
+    rewrite !RsumN_S.
+    set (r := FR (chain a xs ys m)) in *.
+    set (r' := FR (PrimFloat.sub (chain a xs ys m) (PrimFloat.mul (xs m) (ys m)))) in *.
+    set (S0 := RsumN (fun t => FR (xs t) * FR (ys t)) m) in *.
+    set (AS := RsumN (fun t => Rabs (FR (xs t) * FR (ys t))) m) in *.
+    set (pm := FR (xs m) * FR (ys m)) in *.
+    rewrite Ep in Ed.
+    assert (HAS : 0 <= AS) by (unfold AS; apply (RsumN_abs_nonneg (fun t => FR (xs t) * FR (ys t)) m)).
+    pose proof feps_pos as Hu.
+    pose proof (gam_nonneg m) as Hq.
+    rewrite <- tech_pow_Rmult.
+    set (q := (1 + feps) ^ m - 1) in *.
+    replace ((1 + feps) * (1 + feps) ^ m - 1) with ((1 + feps) * (q + 1) - 1) by (unfold q; ring).
+    (* r = r' (1+d) + pm (1+e) *)
+    assert (Er : r = r' * (1 + d) + pm * (1 + e)) by lra.
+    replace (r' + (S0 + pm) - FR a) with ((r + S0 - FR a) + (- (r' * d) + - (pm * e))) by (rewrite Er; ring).
+    eapply Rle_trans; [apply Rabs_triang|].
+    eapply Rle_trans; [apply Rplus_le_compat_l, Rabs_triang|].
+    rewrite !Rabs_Ropp, !Rabs_mult.
+    pose proof (Rabs_pos r') as Hr'. pose proof (Rabs_pos pm) as Hpm.
+    pose proof (Rabs_pos d) as Hd0. pose proof (Rabs_pos e) as He0.
+    assert (B1 : Rabs r <= (1 + feps) * (Rabs r' + Rabs pm)).
+    { rewrite Er. eapply Rle_trans; [apply Rabs_triang|]. rewrite !Rabs_mult.
+      assert (Rabs (1 + d) <= 1 + feps).
+      { eapply Rle_trans; [apply Rabs_triang|]. rewrite Rabs_R1. lra. }
+      assert (Rabs (1 + e) <= 1 + feps).
+      { eapply Rle_trans; [apply Rabs_triang|]. rewrite Rabs_R1. lra. }
+      assert (Rabs r' * Rabs (1 + d) <= Rabs r' * (1 + feps)) by (apply Rmult_le_compat_l; assumption).
+      assert (Rabs pm * Rabs (1 + e) <= Rabs pm * (1 + feps)) by (apply Rmult_le_compat_l; assumption).
+      lra. }
+    assert (B2 : q * Rabs r <= q * ((1 + feps) * (Rabs r' + Rabs pm))) by (apply Rmult_le_compat_l; assumption).
+    assert (B3 : Rabs r' * Rabs d <= Rabs r' * feps) by (apply Rmult_le_compat_l; assumption).
+    assert (B4 : Rabs pm * Rabs e <= Rabs pm * feps) by (apply Rmult_le_compat_l; assumption).
+    assert (B5 : 0 <= feps * (q * AS)).
+    { apply Rmult_le_pos; [lra|]. apply Rmult_le_pos; assumption. }
+    assert (B6 : 0 <= feps * AS) by (apply Rmult_le_pos; lra).
+    lra.
+Qed.
+
+(* an entry of U: the end of the chain *)
+Lemma plu_upper_entry_float_error (a : pfloat) (xs ys : nat -> pfloat) (m K : nat) :
+  (m <= K)%nat ->
+  (forall t, (t < m)%nat -> okmul (xs t) (ys t)) ->
+  (forall t, (t <= m)%nat -> ffin (chain a xs ys t)) ->
+  let u := chain a xs ys m in
+  Rabs (RsumN (fun t => FR (xs t) * FR (ys t)) m + FR u - FR a) <=
+    ((1 + feps) ^ K - 1) * (RsumN (fun t => Rabs (FR (xs t) * FR (ys t))) m + Rabs (FR u)).
+Proof.
+  intros HK Hok Hf u.
+  pose proof (chain_float_error a xs ys m Hok Hf) as E. fold u in E.
+  pose proof (gam_mono m K HK) as G.
+  assert (HA : 0 <= RsumN (fun t => Rabs (FR (xs t) * FR (ys t))) m)
+    by apply (RsumN_abs_nonneg (fun t => FR (xs t) * FR (ys t)) m).
+  pose proof (Rabs_pos (FR u)) as Hu.
+  rewrite (Rplus_comm _ (FR u)), (Rplus_comm _ (Rabs (FR u))).
+  eapply Rle_trans; [exact E|]. apply Rmult_le_compat_r; [lra|exact G].
+Qed.
+
+(* an entry of L: the end of the chain divided by the pivot *)
+Lemma plu_lower_entry_float_error (a : pfloat) (xs ys : nat -> pfloat) (m K : nat) (pivot : pfloat) :
+  (m + 1 <= K)%nat ->
+  (forall t, (t < m)%nat -> okmul (xs t) (ys t)) ->
+  (forall t, (t <= m)%nat -> ffin (chain a xs ys t)) ->
+  okdiv (chain a xs ys m) pivot ->
+  let l := PrimFloat.div (chain a xs ys m) pivot in
+  ffin l /\
+  Rabs (RsumN (fun t => FR (xs t) * FR (ys t)) m + FR l * FR pivot - FR a) <=
+    ((1 + feps) ^ K - 1) * (RsumN (fun t => Rabs (FR (xs t) * FR (ys t))) m + Rabs (FR l * FR pivot)).
+Proof.
+  intros HK Hok Hf Hdiv l. split; [apply Hdiv|].
+  pose proof (chain_float_error a xs ys m Hok Hf) as E.
+  destruct (div_finite_inv _ _ Hdiv) as [e [He Ew]]. fold l in Ew.
+  set (w := FR (chain a xs ys m)) in *.
+  set (S0 := RsumN (fun t => FR (xs t) * FR (ys t)) m) in *.
+  set (AS := RsumN (fun t => Rabs (FR (xs t) * FR (ys t))) m) in *.
+  assert (HAS : 0 <= AS) by (unfold AS; apply (RsumN_abs_nonneg (fun t => FR (xs t) * FR (ys t)) m)).
+  rewrite (Rmult_comm (FR l) (FR pivot)).
+  set (dx := FR pivot * FR l) in *.
+  pose proof feps_pos as Hu.
+  pose proof (gam_nonneg m) as Hq.
+  pose proof (gam_mono (S m) K ltac:(lia)) as G. rewrite <- tech_pow_Rmult in G.
+  set (q := (1 + feps) ^ m - 1) in *.
+  replace ((1 + feps) * (1 + feps) ^ m - 1) with ((1 + feps) * (q + 1) - 1) in G by (unfold q; ring).
+  set (GK := (1 + feps) ^ K - 1) in *.
+  replace (S0 + dx - FR a) with ((w + S0 - FR a) + - (dx * e)) by (rewrite Ew; ring).
+  eapply Rle_trans; [apply Rabs_triang|]. rewrite Rabs_Ropp, Rabs_mult.
+  pose proof (Rabs_pos dx) as Hdx. pose proof (Rabs_pos e) as He0.
+  assert (B1 : Rabs w <= (1 + feps) * Rabs dx).
+  { rewrite Ew, Rabs_mult.
+    assert (Rabs (1 + e) <= 1 + feps).
+    { eapply Rle_trans; [apply Rabs_triang|]. rewrite Rabs_R1. lra. }
+    assert (Rabs dx * Rabs (1 + e) <= Rabs dx * (1 + feps)) by (apply Rmult_le_compat_l; assumption).
+    lra. }
+  assert (B2 : q * Rabs w <= q * ((1 + feps) * Rabs dx)) by (apply Rmult_le_compat_l; assumption).
+  assert (B3 : Rabs dx * Rabs e <= Rabs dx * feps) by (apply Rmult_le_compat_l; assumption).
+  assert (B4 : ((1 + feps) * (q + 1) - 1) * (AS + Rabs dx) <= GK * (AS + Rabs dx))
+    by (apply Rmult_le_compat_r; lra).
+  assert (B5 : 0 <= feps * (q * AS)).
+  { apply Rmult_le_pos; [lra|]. apply Rmult_le_pos; assumption. }
+  assert (B6 : 0 <= feps * AS) by (apply Rmult_le_pos; lra).
+  lra.
+Qed.
+
+(* ======================================================================================== *)
+(* Part C — the factorisation                                                                *)
+
+(* hypotheses on the computation of entry (i,k), stated on the returned factors L, U and on the
+   row-permuted input PA (PA i k = A (s i) k): the chain of m = min i k updates, then (below the
+   diagonal) the division by the pivot *)
+Definition plu_entry_ok (PA L U : mat PrimFloat.float) (i k : nat) : Prop :=
+  let m := Nat.min i k in
+  let r := fun t => chain (PA i k) (fun j => L i j) (fun j => U j k) t in
+  (forall j, (j < m)%nat -> okmul (L i j) (U j k)) /\
+  (forall t, (t <= m)%nat -> is_finite (Prim2B (r t)) = true) /\
+  ((k < i)%nat -> okdiv (r m) (U k k)).
+
+Theorem plu_float_backward_error : forall (n : nat) (A L U P : mat PrimFloat.float) (s : nat -> nat),
+  plu n n A = Ok (L, U, P) ->
+  (forall i j, (i < n)%nat -> (j < n)%nat ->
+     P i j = if (j =? s i)%nat then PrimFloat.one else PrimFloat.zero) ->
+  (forall i k, (i < n)%nat -> (k < n)%nat -> plu_entry_ok (fun r c => A (s r) c) L U i k) ->
+  forall i k, (i < n)%nat -> (k < n)%nat ->
+    is_finite (Prim2B (L i k)) = true /\ is_finite (Prim2B (U i k)) = true /\
+    Rabs (mprod n (fun r c => B2R (Prim2B (L r c))) (fun r c => B2R (Prim2B (U r c))) i k
+          - B2R (Prim2B (A (s i) k)))
+    <= ((1 + bpow radix2 (-53)) ^ n - 1)
+       * mprod n (fun r c => Rabs (B2R (Prim2B (L r c)))) (fun r c => Rabs (B2R (Prim2B (U r c)))) i k.
+Proof.
+  intros n A L U P s E HP Hok i k Hi Hk.
+  destruct (plu_ok_final n A L U P E) as [s0 [[s0' Hs0] [HP0 [I1 I2 I3 I4 I5]]]].
+  pose proof FR_zero as [Z0 ZF]. pose proof FR_one as [O1 OF].
+  (* the permutation read off P is the one followed by the algorithm *)
+  assert (Es : s i = s0 i).
+  { destruct (Hs0 i Hi) as [Hlt _].
+    pose proof (HP i (s0 i) Hi Hlt) as E1. rewrite (HP0 i (s0 i) Hi Hlt), Nat.eqb_refl in E1.
+    destruct (Nat.eqb_spec (s0 i) (s i)) as [Heq|Hne]; [symmetry; exact Heq|exfalso].
+    cbn [n1 FNum] in E1. apply (f_equal FR) in E1. rewrite Z0, O1 in E1. lra. }
+  change (ffin (L i k) /\ ffin (U i k) /\
+          Rabs (msum 0 n (fun t => FR (L i t) * FR (U t k)) - FR (A (s i) k))
+          <= ((1 + feps) ^ n - 1) * msum 0 n (fun t => Rabs (FR (L i t)) * Rabs (FR (U t k)))).
+  assert (L0 : forall t, (i < t < n)%nat -> L i t = PrimFloat.zero).
+  { intros t Ht. apply (I5 i t); lia. }
+  assert (U0 : forall t, (k < t < n)%nat -> U t k = PrimFloat.zero).
+  { intros t Ht. apply (I2 t k); lia. }
+  assert (L1 : L i i = PrimFloat.one) by (apply (I4 i); lia).
+  pose (xs := fun j : nat => L i j). pose (ys := fun j : nat => U j k).
+  specialize (Hok i k Hi Hk). unfold plu_entry_ok in Hok. cbv zeta in Hok. cbv beta in Hok.
+  rewrite Es in *.
+  change (fun j : nat => L i j) with xs in Hok. change (fun j : nat => U j k) with ys in Hok.
+  destruct (le_lt_dec i k) as [Hik|Hki].
+  - (* on or above the diagonal *)
+    rewrite (Nat.min_l i k Hik) in Hok.
+    destruct Hok as [Hmul [Hf _]].
+    assert (Ex : U i k = chain (A (s0 i) k) xs ys i) by exact (I1 i k Hi Hk Hik).
+    pose proof (plu_upper_entry_float_error (A (s0 i) k) xs ys i n ltac:(lia) Hmul Hf) as R.
+    cbv zeta in R. rewrite <- Ex in R.
+    pose proof (Hf i (le_n i)) as Fu. fold (ffin (chain (A (s0 i) k) xs ys i)) in Fu. rewrite <- Ex in Fu.
+    split; [|split; [exact Fu|]].
+    + destruct (Nat.eq_dec i k) as [Eik|Hne]; [rewrite <- Eik, L1; exact OF|].
+      rewrite (L0 k) by lia. exact ZF.
+    + rewrite (msum_trunc (S i) n) by (try lia; intros t Ht; rewrite (L0 t) by lia; rewrite Z0; ring).
+      rewrite (msum_trunc (S i) n (fun t => Rabs (FR (L i t)) * Rabs (FR (U t k))))
+        by (try lia; intros t Ht; rewrite (L0 t) by lia; rewrite Z0, Rabs_R0; ring).
+      cbn [msum]. rewrite Nat.add_0_l, L1, O1, Rabs_R1, !Rmult_1_l, !msum_RsumN.
+      rewrite (RsumN_ext (fun t => Rabs (FR (L i t)) * Rabs (FR (U t k)))
+                         (fun t => Rabs (FR (xs t) * FR (ys t))) i)
+        by (intros t _; rewrite Rabs_mult; reflexivity).
+      exact R.
+  - (* below the diagonal *)
+    rewrite (Nat.min_r i k ltac:(lia)) in Hok.
+    destruct Hok as [Hmul [Hf Hdiv]]. specialize (Hdiv Hki).
+    assert (Ex : L i k = PrimFloat.div (chain (A (s0 i) k) xs ys k) (U k k)) by exact (I3 i k Hi Hk Hki).
+    destruct (plu_lower_entry_float_error (A (s0 i) k) xs ys k n (U k k) ltac:(lia) Hmul Hf Hdiv) as [Fl R].
+    rewrite <- Ex in Fl, R.
+    split; [exact Fl|]. split; [rewrite (I2 i k Hi Hk) by lia; exact ZF|].
+    rewrite (msum_trunc (S k) n) by (try lia; intros t Ht; rewrite (U0 t) by lia; rewrite Z0; ring).
+    rewrite (msum_trunc (S k) n (fun t => Rabs (FR (L i t)) * Rabs (FR (U t k))))
+      by (try lia; intros t Ht; rewrite (U0 t) by lia; rewrite Z0, Rabs_R0; ring).
+    cbn [msum]. rewrite Nat.add_0_l, !msum_RsumN.
+    rewrite (RsumN_ext (fun t => Rabs (FR (L i t)) * Rabs (FR (U t k)))
+                       (fun t => Rabs (FR (xs t) * FR (ys t))) k)
+      by (intros t _; rewrite Rabs_mult; reflexivity).
+    rewrite <- Rabs_mult. exact R.
+Qed.
+
+(* no row interchange: P is the identity, s = id *)
+Corollary plu_float_backward_error_no_interchange : forall (n : nat) (A L U P : mat PrimFloat.float),
+  plu n n A = Ok (L, U, P) ->
+  (forall i j, (i < n)%nat -> (j < n)%nat ->
+     P i j = if (j =? i)%nat then PrimFloat.one else PrimFloat.zero) ->
+  (forall i k, (i < n)%nat -> (k < n)%nat -> plu_entry_ok A L U i k) ->
+  forall i k, (i < n)%nat -> (k < n)%nat ->
+    Rabs (mprod n (fun r c => B2R (Prim2B (L r c))) (fun r c => B2R (Prim2B (U r c))) i k
+          - B2R (Prim2B (A i k)))
+    <= ((1 + bpow radix2 (-53)) ^ n - 1)
+       * mprod n (fun r c => Rabs (B2R (Prim2B (L r c)))) (fun r c => Rabs (B2R (Prim2B (U r c)))) i k.
+Proof.
+  intros n A L U P E HP Hok i k Hi Hk.
+  exact (proj2 (proj2 (plu_float_backward_error n A L U P (fun r => r) E HP Hok i k Hi Hk))).
+Qed.
+
+(* ---- non-vacuity: A = [[1,2,3],[4,5,6],[7,8,10]]: the pivots are 7 (row 2) and 6/7 (original row 0),
+   so two interchanges happen and P A = rows (2, 0, 1) of A; the multipliers 1/7, 4/7, 1/2 are inexact *)
+Definition ex_plu_a : mat PrimFloat.float :=
+  mat_of_lists [[0x1p+0; 0x1p+1; 0x1.8p+1]; [0x1p+2; 0x1.4p+2; 0x1.8p+2]; [0x1.cp+2; 0x1p+3; 0x1.4p+3]]%float.
+Definition ex_plu_s (r : nat) : nat := match r with 0 => 2 | 1 => 0 | _ => 1 end%nat.
+
+Example ex_plu_float_hyps : exists L U P, plu 3 3 ex_plu_a = Ok (L, U, P) /\
+  (forall i j, (i < 3)%nat -> (j < 3)%nat ->
+     P i j = if (j =? ex_plu_s i)%nat then PrimFloat.one else PrimFloat.zero) /\
+  forall i k, (i < 3)%nat -> (k < 3)%nat -> plu_entry_ok (fun r c => ex_plu_a (ex_plu_s r) c) L U i k.
+Proof.
+  eexists _, _, _. split; [vm_compute; reflexivity|]. split.
+  - intros i j Hi Hj.
+    destruct i as [|[|[|i]]]; try lia; destruct j as [|[|[|j]]]; try lia; vm_compute; reflexivity.
+  - intros i k Hi Hk.
+    destruct i as [|[|[|i]]]; try lia; destruct k as [|[|[|k]]]; try lia;
+    unfold plu_entry_ok; cbn [Nat.min]; cbv zeta;
+    (split; [intros j Hj; destruct j as [|[|j]]; try lia; okmul_compute|]; split;
+     [intros t Ht; destruct t as [|[|[|t]]]; try lia; fin_compute|intros Hlt; try lia; okdiv_compute]).
+Qed.
+
+Example ex_plu_float_error : exists L U P, plu 3 3 ex_plu_a = Ok (L, U, P) /\
+  forall i k, (i < 3)%nat -> (k < 3)%nat ->
+    Rabs (mprod 3 (fun r c => B2R (Prim2B (L r c))) (fun r c => B2R (Prim2B (U r c))) i k
+          - B2R (Prim2B (ex_plu_a (ex_plu_s i) k)))
+    <= ((1 + bpow radix2 (-53)) ^ 3 - 1)
+       * mprod 3 (fun r c => Rabs (B2R (Prim2B (L r c)))) (fun r c => Rabs (B2R (Prim2B (U r c)))) i k.
+Proof.
+  destruct ex_plu_float_hyps as [L [U [P [E [HP H]]]]]. exists L, U, P. split; [exact E|].
+  intros i k Hi Hk. exact (proj2 (proj2 (plu_float_backward_error 3 ex_plu_a L U P ex_plu_s E HP H i k Hi Hk))).
+Qed.
